@@ -649,7 +649,10 @@ def force_merge(prog, an, rep):
     ev = need_func(an, JOBS + '.eval_pull_request.evaluate_pull_request')
     pj = [x for x in prog.calls_in(ev)
           if prog.callee(ev, x) == ('class', 'bert_e.job.PullRequestJob')]
-    rep.check(len(pj) == 1 and 'pull_request=pr' in src(pj[0]) and
+    prv = canon(ev, kw(pj[0], 'pull_request')) if len(pj) == 1 and \
+        kw(pj[0], 'pull_request') is not None else ''
+    rep.check(len(pj) == 1 and prv == '%s.project_repo.get_pull_request('
+              '%s.settings.pr_id)' % (ev.params[0], ev.params[0]) and
               'job.bert_e.process' in src(ev.node), 'C20.ARG.eval',
               ev.qname + ': evaluates the requested pull request through '
               'the normal workflow', ev.where(), 'builds %s' %
